@@ -187,6 +187,10 @@ def instantiate(ctx, sort, name, idx=()):
         return Opaque(f(*[to_int_z(i) for i in idx]), sort.tag)
     if isinstance(sort, Tup):
         items = [instantiate(ctx, e, f"{name}.{k}", idx) for k, e in enumerate(sort.elems)]
+        if sort.pytype == "ndarray":
+            from .externals import Arr
+
+            return Arr(items)  # a small 1-D ndarray: element-wise arithmetic
         return tuple(items) if sort.pytype == "tuple" else list(items)
     if isinstance(sort, Seq):
         nidx = len(idx)
@@ -385,6 +389,29 @@ def _spec_helpers():
             rec(a)
         f = z3.Function(f"spec_{name}", *[x.sort() for x in flat], opq_sort(tag))
         return Opaque(f(*flat), tag)
+
+    @reg("ufr")
+    def ufr(I, args, kw):
+        """Uninterpreted real-valued spec function ufr(name, *args): the same arguments give the same value (used to name
+        the result of an assumed callee, e.g. the bounding box of a cell)."""
+        name = args[0]
+        flat = []
+
+        def rec(v):
+            if isinstance(v, (tuple, list)):
+                for x in v:
+                    rec(x)
+            elif isinstance(v, Opaque):
+                flat.append(v.z)
+            elif v is None:
+                flat.append(z3.StringVal("<None>"))
+            else:
+                flat.append(z_of(v))
+
+        for a in args[1:]:
+            rec(a)
+        f = z3.Function(f"spec_{name}", *[x.sort() for x in flat], z3.RealSort())
+        return Sym(f(*flat), "real")
 
     @reg("row")
     def row(I, args, kw):
